@@ -244,3 +244,8 @@ def run(facts, res):
         if not ok:
             res.violation("L4", "%s|listing-not-complete" % name, "%s does not parse every name returned by list_raw_items(DELTA_EXTENSION)" % name, b.loc())
     res.floor("L4", "apply / parse loops", n4, 5)
+
+
+def thorough(res):
+    from .. import engine
+    engine.sensitivity("C01", res)
